@@ -34,18 +34,18 @@ func (k Kind) String() string {
 // Scenario is a fully parameterised session that can be instantiated any number of times
 // (reference run, explored run, twin runs) with identical inputs.
 type Scenario struct {
-	Kind    Kind
-	Proto   Proto
-	N, T    int
-	IDs     []party.ID // all shareholders
-	Parts   []party.ID // participants of this session (signers for sign kinds)
-	Msg     []byte
-	Mat     *Material                         // input material (refresh / sign kinds)
-	Pre     map[party.ID]*ecdsa.PreSignature // presign-online
-	Y       ref.Pt                            // expected group key (refresh / sign kinds)
-	HasY    bool
-	SID     []byte
-	Name    string
+	Kind  Kind
+	Proto Proto
+	N, T  int
+	IDs   []party.ID // all shareholders
+	Parts []party.ID // participants of this session (signers for sign kinds)
+	Msg   []byte
+	Mat   *Material                        // input material (refresh / sign kinds)
+	Pre   map[party.ID]*ecdsa.PreSignature // presign-online
+	Y     ref.Pt                           // expected group key (refresh / sign kinds)
+	HasY  bool
+	SID   []byte
+	Name  string
 }
 
 func (s *Scenario) String() string {
@@ -67,16 +67,17 @@ func (s *Scenario) Mk() map[party.ID]Mk {
 		return out
 	case KKeygen:
 		return KeygenMk(s.Proto, s.Parts, s.T, s.SID)
+	// every instance works on its own deep copy of the input material
 	case KRefresh:
-		return s.Mat.RefreshMk(s.SID)
+		return s.Mat.Clone().RefreshMk(s.SID)
 	case KSign:
-		return s.Mat.SignMk(s.Parts, s.Msg, s.SID, SignPlain)
+		return s.Mat.Clone().SignMk(s.Parts, s.Msg, s.SID, SignPlain)
 	case KPresignFull:
-		return s.Mat.SignMk(s.Parts, s.Msg, s.SID, SignPresignFull)
+		return s.Mat.Clone().SignMk(s.Parts, s.Msg, s.SID, SignPresignFull)
 	case KPresign:
-		return s.Mat.PresignMk(s.Parts, s.SID)
+		return s.Mat.Clone().PresignMk(s.Parts, s.SID)
 	case KPresignOnline:
-		return s.Mat.PresignOnlineMk(s.Pre, s.Msg, s.SID)
+		return s.Mat.Clone().PresignOnlineMk(s.Pre, s.Msg, s.SID)
 	}
 	Fatalf("scenario: bad kind")
 	return nil
@@ -139,7 +140,7 @@ func DrawScenario(c *fw.Ctx, o ScenarioOpts) *Scenario {
 		s.Proto = CMP
 	} else {
 		np := 3
-		if o.NoDoerner || o.OnlyMulti || o.MinN > 2 {
+		if o.NoDoerner || o.OnlyMulti {
 			np = 2
 		}
 		s.Proto = Proto(c.S.Draw(np, "proto"))
